@@ -397,6 +397,11 @@ type Clause struct {
 	Label string
 	Src   string
 	E     Expr
+	// Using (function ensures only): the labelled hypotheses - loop and
+	// monitor invariants, earlier proved clauses, "unpublished", "frame" -
+	// that this clause's proof may use; the others are left out of its query.
+	// Leaving hypotheses out can only lose proofs.
+	Using []string
 }
 
 type LoopSpec struct {
@@ -409,6 +414,10 @@ type LoopSpec struct {
 	Applies     []Clause
 	HeadApplies []Clause // instances assumed at the loop head ("apply_head")
 	Assumed     []Clause // assumed at the loop head without proof ("assume_invariant"; reported)
+	// Steps are checked at every back edge only ("step"): what one
+	// iteration does, over the current state and prev(e) = e at the loop
+	// head of the same iteration.  Not assumed anywhere.
+	Steps []Clause
 }
 
 type ParamDecl struct {
@@ -528,7 +537,7 @@ func newContractSet() *ContractSet {
 var clauseKeywords = map[string]bool{
 	"requires": true, "ensures": true, "modifies": true, "loop": true, "invariant": true,
 	"decreases": true, "func": true, "extern": true, "spec": true, "lemma": true, "pure": true,
-	"inline": true, "panics": true, "trusted": true, "induction": true, "use": true, "def": true, "call": true, "apply": true, "apply_head": true, "apply_exit": true, "opaque": true, "embedded": true, "guarded": true, "callback": true, "monitor": true, "check_at_store": true, "assume_invariant": true, "residual": true, "result_is": true, "from": true, "models": true, "hidden": true, "reveal": true, "logged": true, "may_panic": true, "recovers": true, "at_call": true,
+	"inline": true, "panics": true, "trusted": true, "induction": true, "use": true, "def": true, "call": true, "apply": true, "apply_head": true, "apply_exit": true, "opaque": true, "embedded": true, "guarded": true, "callback": true, "monitor": true, "check_at_store": true, "assume_invariant": true, "residual": true, "result_is": true, "from": true, "models": true, "hidden": true, "reveal": true, "logged": true, "may_panic": true, "recovers": true, "at_call": true, "step": true, "using": true,
 }
 
 // AtCall is one at_call clause.
@@ -567,9 +576,16 @@ func (cs *ContractSet) parseContractText(text, pkgPath, file string) error {
 	var curS *SpecFn
 	var curLem *LemmaSpec
 	var curMon *MonitorSpec
+	lastKW := ""
 	for _, it := range items {
 		kw, rest := splitKW(it)
 		var err error
+		if kw != "using" {
+			lastKW = kw
+			if kw == "ensures" && (curL != nil || curS != nil || curLem != nil) {
+				lastKW = "ensures-other"
+			}
+		}
 		switch kw {
 		case "func", "extern":
 			curL, curS, curLem, curMon = nil, nil, nil, nil
@@ -622,6 +638,24 @@ func (cs *ContractSet) parseContractText(text, pkgPath, file string) error {
 			l.Name, l.Params = name, params
 			cs.Lemmas[l.Name] = l
 			curLem = l
+		case "using":
+			if curF == nil || len(curF.Ensures) == 0 || lastKW != "ensures" {
+				return fmt.Errorf("%s: using must follow an ensures clause of a function", file)
+			}
+			curF.Ensures[len(curF.Ensures)-1].Using = append(curF.Ensures[len(curF.Ensures)-1].Using, splitComma(rest)...)
+			continue
+		case "step":
+			if curL == nil {
+				return fmt.Errorf("%s: step outside a loop", file)
+			}
+			{
+				label, src := splitLabel(rest)
+				e, err := parseExpr(src)
+				if err != nil {
+					return fmt.Errorf("%s: step: %v", file, err)
+				}
+				curL.Steps = append(curL.Steps, Clause{Label: label, Src: src, E: e})
+			}
 		case "assume_invariant":
 			label, src := splitLabel(rest)
 			e, err := parseExpr(src)
